@@ -75,7 +75,9 @@ def check_names(part, probe, cid, reg, names, tag):
             if not res["again_same"]:
                 part.violation({"kind": "nondeterministic_lookup"}, {"name": name, "db": tag}, "")
                 continue
-            if rv is not None and res["canon"] is not None:
+            if rv is not None and res["canon"] in ("ans", "ANS", "_"):
+                part.count("canonical_is_previous_result_name")     # `a`+`ns` spells the previous-result name: C15's business
+            elif rv is not None and res["canon"] is not None:
                 if not res["cv_some"]:
                     shape = shape_of_unresolvable(reg, name, how)
                     part.violation({"kind": "canonical_name_unresolvable", "shape": shape},
@@ -136,7 +138,7 @@ def gen_db(rng):
         else:
             lines.append("%s !" % b)
     prefixes = []
-    cand = ["k", "m", "mi", "min", "ki", "kilo", "mega", "milli", "s", "a", "ab", "in"]
+    cand = ["k", "m", "mi", "min", "ki", "kilo", "mega", "milli", "s", "a", "ab", "in", "d", "da"]
     rng.shuffle(cand)
     vals = {}
     for p in cand[:rng.randrange(2, 7)]:
@@ -156,14 +158,31 @@ def gen_db(rng):
             n = rng.choice(sorted(names)) + "s"           # a unit that looks like a plural
         else:
             n = "".join(rng.choice(letters) for _ in range(rng.randrange(1, 4)))
-        if n in names or n in prefixes or not n[0].isalpha():
-            continue
+        if n in names or n in prefixes or not n[0].isalpha() or n in ("ans", "ANS", "_"):
+            continue          # the previous-result names are not unit names (C15's business)
         target = rng.choice(sorted(names))
         if rng.random() < 0.3:
             lines.append("%s %s" % (n, target))           # alias
         else:
             lines.append("%s %d %s" % (n, rng.randrange(2, 50), target))
         names.add(n)
+    if rng.random() < 0.7 and len(prefixes) >= 2:
+        # a reference that splits into prefix + unit in two ways (p1 + xy / p1x + y), used by a definition
+        for p1 in prefixes:
+            for p2 in prefixes:
+                if p2 != p1 and p2.startswith(p1):
+                    rest = p2[len(p1):]
+                    u_long, u_short = rest + "zz", "zz"
+                    if u_long not in names and u_short not in names:
+                        lines.append("%s 7 %s" % (u_short, sorted(bases)[0]))
+                        lines.append("%s 11 %s" % (u_long, sorted(bases)[-1]))
+                        lines.append("ambref 3 %s" % (p1 + u_long))
+                        lines.append("ambalias %s" % (p1 + u_long))
+                        names |= {u_long, u_short, "ambref", "ambalias"}
+                    break
+            else:
+                continue
+            break
     rng.shuffle(lines)
     return "\n".join(lines) + "\n"
 
@@ -190,6 +209,20 @@ def work_generated(idx, chunk, seed):
                     extra.add(p1 + p2 + n)
         names += sorted(extra)[:2000]
         check_names(part, probe, cid, reg, names, "gen:%d" % dbseed)
+        # a name must denote the same value when a definition was evaluated during the load as it does now
+        ev = probe.request({"op": "evaldefs", "ctx": cid}, timeout=60)
+        for uname, got in (ev.get("values") or {}).items():
+            part.evaluations += 1
+            stored = d["dump"]["units"].get(uname)
+            if stored is None or "number" not in got:
+                continue
+            if got["number"] != stored:
+                part.violation({"kind": "name_denoted_another_value_at_load_time"},
+                               {"db": "gen:%d" % dbseed, "unit": uname, "definition": d["dump"]["definitions"][uname]["text"],
+                                "stored": stored, "now": got["number"], "text": text},
+                               "a definition evaluated during the load read a name differently from how it resolves now")
+            else:
+                part.count("generated_definition_fixed_point_ok")
         part.count("generated_databases")
         probe.request({"op": "dropctx", "ctx": cid})
     return part.export()
